@@ -162,10 +162,35 @@ impl Property for C13 {
                 out.fail("c13:ctor-differs", format!("constructor outcome changed by a deviation at a later call: {:?}", real.ctor));
                 return out;
             }
+            let tags_dev: Vec<Option<i64>> = real
+                .items
+                .iter()
+                .map(|it| match it {
+                    RealItem::Row(r) => match r.inputs.iter().find(|e| e.0 == "TAG").map(|e| e.1) {
+                        Some(crate::model::InVal::Val(t)) => Some(t),
+                        _ => None,
+                    },
+                    _ => None,
+                })
+                .collect();
+            let pos_dev = crate::probe::positions(&tags_dev, &rows);
             // attribution of every returned row, before and after the deviating call
             for (i, item) in real.items.iter().enumerate() {
                 let RealItem::Row(row) = item else { continue };
                 if row.outputs.is_empty() {
+                    // a mid-clock row - unless its position in the expansion of its source row
+                    // (from the tags) says that it is a checked one
+                    let by_position = pos_dev.get(i).copied().flatten().map(|(rid, p)| {
+                        let phases = if rows[&rid].cs.is_empty() { 1 } else { 3 };
+                        p % phases == phases - 1
+                    });
+                    if i > k && by_position == Some(true) {
+                        out.fail(
+                            "c13:checked-row-without-outputs-after-deviation",
+                            format!("item {i} (deviation was at item {k}) is a checked row by its position in the expansion of its source row, yet it comes back without any output entry: nothing is compared any more"),
+                        );
+                        return out;
+                    }
                     continue;
                 }
                 if real.log_len_before[i + 1] != real.log_len_before[i] + 1 {
